@@ -121,10 +121,21 @@ func sortTag(s Sort) string {
 	return r.Replace(string(s))
 }
 
-func heapArrName(elem Sort) string { return "A." + sortTag(elem) }
+// Backing arrays and maps are partitioned by element / key-value *type*: Go's
+// type system guarantees that a []T never aliases a []U (T != U), and that
+// maps of different types are different objects.
+func typeTag(t types.Type) string {
+	return sanitize(types.TypeString(t, func(p *types.Package) string { return p.Name() }))
+}
 
-func mapDomName(val Sort) string { return "M." + sortTag(val) + ".dom" }
-func mapValName(val Sort) string { return "M." + sortTag(val) + ".val" }
+func heapArrName(elem types.Type) string { return "A." + typeTag(elem) }
+
+func mapDomName(mt *types.Map) string {
+	return "M." + typeTag(mt.Key()) + "." + typeTag(mt.Elem()) + ".dom"
+}
+func mapValName(mt *types.Map) string {
+	return "M." + typeTag(mt.Key()) + "." + typeTag(mt.Elem()) + ".val"
+}
 
 // zeroOf returns the zero value term of a scalar sort.
 func (ex *Exec) zeroOf(s Sort) *Term {
